@@ -5,6 +5,8 @@
   rename   additionally every function-local variable is renamed (x -> x_rn), consistently through nested closures;
            parameters, globals, imports, except-names and class-body names are left alone.  The repository's suite passes on it.
   docstring every function / class without a docstring gets one (the first statement of every body changes)
+  tempvar  every `return <call>` of a function that is not a generator becomes `result_tv = <call>; return result_tv`
+           (an idiom change: measures how much the checks depend on the literal shape of return statements)
 Remove <dest> after use."""
 import ast
 import pathlib
@@ -92,6 +94,38 @@ def main():
                 if isinstance(node, (ast.FunctionDef, ast.AsyncFunctionDef, ast.ClassDef)) and ast.get_docstring(node) is None:
                     node.body.insert(0, ast.Expr(value=ast.Constant(value=f"Documentation of {node.name}.")))
                     n += 1
+            ast.fix_missing_locations(tree)
+        if mode == "tempvar":
+            class T(ast.NodeTransformer):
+                def visit_Lambda(self, node):
+                    return node
+
+                def _block(self, stmts):
+                    out = []
+                    for st in stmts:
+                        st = self.visit(st)
+                        if isinstance(st, ast.Return) and isinstance(st.value, ast.Call):
+                            nonlocal n
+                            n += 1
+                            out.append(ast.Assign(targets=[ast.Name(id="result_tv", ctx=ast.Store())], value=st.value, lineno=st.lineno))
+                            out.append(ast.Return(value=ast.Name(id="result_tv", ctx=ast.Load())))
+                        else:
+                            out.append(st)
+                    return out
+
+                def generic_visit(self, node):
+                    for field in ("body", "orelse", "finalbody"):
+                        v = getattr(node, field, None)
+                        if isinstance(v, list) and v and isinstance(v[0], ast.stmt):
+                            setattr(node, field, self._block(v))
+                    if isinstance(node, ast.Try):
+                        for h in node.handlers:
+                            h.body = self._block(h.body)
+                    if isinstance(node, ast.Match):
+                        for c in node.cases:
+                            c.body = self._block(c.body)
+                    return node
+            T().visit(tree)
             ast.fix_missing_locations(tree)
         p.write_text(ast.unparse(tree) + "\n")
     print(f"{mode}: wrote {dest} ({n} locals renamed)")
